@@ -102,6 +102,8 @@ SEED = {
  "seedpatch-C05-h": ("C05", "/verif/seeded/C05-h/patch.diff"),
  "seedpatch-C06-h": ("C06", "/verif/seeded/C06-h/patch.diff"),
  "seedpatch-C01-h": ("C01", "/verif/seeded/C01-h/patch.diff"),
+ # caught by the random stream only before the fixed corpus family of section 16
+ "seedpatch-C04-c": ("C04", "/verif/seeded/C04-c/patch.diff"),
 }
 ENV = dict(os.environ, GOFLAGS="-mod=mod", GOPROXY="off", GOSUMDB="off", GOTOOLCHAIN="local")
 BASE = "go test -vet=off -count=1 ./bint/... ./eth/... ./jrpc2/... ./shovel/config/... ./shovel/glf/... ./wctx/... ./wos/... ./wslog/..."
